@@ -38,6 +38,26 @@ def _slices(sub):
         out.append((ast.unparse(e.lower) if e.lower else '', ast.unparse(e.upper) if e.upper else ''))
     return out
 
+
+# ---------------------------------------------------------------------------------------------- real-valued expressions
+def _real(e, env):
+    """Python float expression -> Lean term over a scalar type K (classes Add Sub Mul Div Neg NatCast IntCast; `sqrtN k` = np.sqrt(k)).
+    `env` maps Python names / attribute texts to Lean terms of type K."""
+    src = ast.unparse(e)
+    if src in env: return env[src]
+    if isinstance(e, ast.Constant) and isinstance(e.value, int) and not isinstance(e.value, bool) and e.value >= 0: return f'(({e.value} : Nat) : K)'
+    if isinstance(e, ast.Constant) and isinstance(e.value, float) and e.value == int(e.value) and e.value >= 0: return f'(({int(e.value)} : Nat) : K)'
+    if isinstance(e, ast.UnaryOp) and isinstance(e.op, ast.USub): return f'(-{_real(e.operand, env)})'
+    if isinstance(e, ast.BinOp):
+        op = {ast.Add: '+', ast.Sub: '-', ast.Mult: '*', ast.Div: '/'}.get(type(e.op))
+        if op: return f'({_real(e.left, env)} {op} {_real(e.right, env)})'
+    if isinstance(e, ast.Call) and ast.unparse(e.func) == 'np.sqrt' and len(e.args) == 1 and isinstance(e.args[0], ast.Constant) \
+            and isinstance(e.args[0].value, int) and e.args[0].value >= 0:
+        return f'sqrtN {e.args[0].value}'
+    raise Refuse('real expression ' + src)
+
+KCLASSES = '{K : Type} [Add K] [Sub K] [Mul K] [Div K] [Neg K] [NatCast K] [IntCast K]'
+
 # ---------------------------------------------------------------------------------------------- util.pad
 def _pad_block(tr, stmts):
     """index block of util.pad: from `dr = ...` up to (excluding) the copy; `offset` (0 for 2-D arrays, 1 for cubes:
@@ -172,16 +192,105 @@ def _hex_generator(repo):
                 'seg = 1\nfor ring in range(1, rings + 1):\n    for h in hex_ring(ring):\n        r, c = hex_to_rc(h, seg_radius + seg_gap / 2, rotate)\n'
                 '        if seg not in drop:\n            mask.append(lentil.hexagon(shape, seg_radius, shift=(r, c), antialias=antialias, rotate=rotate))\n        seg += 1',
                 params + ['mask', 'shape'], 'hex_segments numbering loop')
+    # array size, inner radius and grid pitch: TRANSLATED (real-valued expressions over seg_radius, seg_gap, rings, pad, sqrt(3))
+    env = {'seg_radius': 'seg_radius', 'seg_gap': 'seg_gap', 'rings': '((rings : Nat) : K)', 'pad': '((pad : Nat) : K)'}
+    asg = {ast.unparse(x.targets[0]): x.value for x in body if isinstance(x, ast.Assign) and len(x.targets) == 1}
+    if 'inner_radius' not in asg or 'size' not in asg: raise Refuse('hex_segments: inner_radius / size not found')
+    inner_l = _real(asg['inner_radius'], env)
+    sz = asg['size']
+    if not (isinstance(sz, ast.Call) and isinstance(sz.func, ast.Attribute) and sz.func.attr == 'astype' and ast.unparse(sz.args[0]) == 'int'
+            and isinstance(sz.func.value, ast.Call) and ast.unparse(sz.func.value.func) == 'np.ceil' and len(sz.func.value.args) == 1):
+        raise Refuse('hex_segments: size is not np.ceil(...).astype(int)')
+    size_l = _real(sz.func.value.args[0], dict(env, inner_radius=f'(hexInner sqrtN seg_radius)'))
+    rc_calls = [x for x in ast.walk(seg) if isinstance(x, ast.Call) and ast.unparse(x.func) == 'hex_to_rc']
+    if len(rc_calls) != 1 or len(rc_calls[0].args) != 3 or ast.unparse(rc_calls[0].args[0]) != 'h' or ast.unparse(rc_calls[0].args[2]) != 'rotate':
+        raise Refuse('hex_segments: hex_to_rc call changed')
+    pitch_l = _real(rc_calls[0].args[1], env)
+    # hex_to_xy / hex_to_rc
+    xy = fns.get('hex_to_xy'); rcf = fns.get('hex_to_rc')
+    if xy is None or rcf is None: raise Refuse('hex_to_xy / hex_to_rc not found')
+    henv = {'radius': 'radius', 'hex.q': '((h.1 : Int) : K)', 'hex.r': '((h.2.1 : Int) : K)', 'hex.s': '((h.2.2 : Int) : K)'}
+    xb = [x for x in xy.body if not (isinstance(x, ast.Expr) and isinstance(x.value, ast.Constant))]
+    if len(xb) != 2 or not isinstance(xb[0], ast.If) or ast.unparse(xb[0].test) != 'rotate' or not isinstance(xb[1], ast.Return) \
+            or not isinstance(xb[1].value, ast.Tuple) or [ast.unparse(t) for t in xb[1].value.elts] != ['x', 'y']:
+        raise Refuse('hex_to_xy: shape changed')
+    def branch(stmts):
+        d = {ast.unparse(t.targets[0]): t.value for t in stmts if isinstance(t, ast.Assign)}
+        if set(d) != {'x', 'y'} or len(stmts) != 2: raise Refuse('hex_to_xy: branch changed')
+        return _real(d['x'], henv), _real(d['y'], henv)
+    (xr, yr), (xu, yu) = branch(xb[0].body), branch(xb[0].orelse)
+    rb = [x for x in rcf.body if not (isinstance(x, ast.Expr) and isinstance(x.value, ast.Constant))]
+    if len(rb) != 2 or ast.unparse(rb[0]).replace(' ', '').replace('(x,y)', 'x,y') != 'x,y=hex_to_xy(hex,radius,rotate)' or not isinstance(rb[1], ast.Return) \
+            or not isinstance(rb[1].value, ast.Tuple) or len(rb[1].value.elts) != 2:
+        raise Refuse('hex_to_rc: shape changed')
+    renv = {'x': 'xy.1', 'y': 'xy.2'}
+    rc_l = f'({_real(rb[1].value.elts[0], renv)}, {_real(rb[1].value.elts[1], renv)})'
     lean = ('/-- `segmented.hex_directions` -/\n'
             'def hexDirections : List (Int × Int × Int) :=\n  [' + ', '.join(f'({a}, {b}, {c})' for a, b, c in table) + ']\n\n'
             '/-- start cell of `segmented.hex_ring(radius)` -/\n'
             f'def hexRingStart (radius : Int) : Int × Int × Int := ({start})\n\n'
             '/-- `segmented.hex_add` -/\n'
-            'def hexAdd (a b : Int × Int × Int) : Int × Int × Int := (a.1 + b.1, a.2.1 + b.2.1, a.2.2 + b.2.2)\n')
-    return lean, ['hex_ring loop, hex_neighbor/hex_direction/hex_add bodies and the hex_segments numbering loop matched against templates']
+            'def hexAdd (a b : Int × Int × Int) : Int × Int × Int := (a.1 + b.1, a.2.1 + b.2.1, a.2.2 + b.2.2)\n\n'
+            '/-- `hex_segments`: `inner_radius` -/\n'
+            f'def hexInner {KCLASSES} (sqrtN : Nat → K) (seg_radius : K) : K := {inner_l}\n\n'
+            '/-- `hex_segments`: the argument of `np.ceil` in `size` -/\n'
+            f'def hexSizeArg {KCLASSES} (sqrtN : Nat → K) (rings pad : Nat) (seg_radius seg_gap : K) : K :=\n  {size_l}\n\n'
+            '/-- `hex_segments`: the grid pitch handed to `hex_to_rc` -/\n'
+            f'def hexPitch {KCLASSES} (seg_radius seg_gap : K) : K := {pitch_l}\n\n'
+            '/-- `hex_to_xy` -/\n'
+            f'def hexToXY {KCLASSES} (sqrtN : Nat → K) (h : Int × Int × Int) (radius : K) (rotate : Bool) : K × K :=\n'
+            f'  if rotate then ({xr}, {yr})\n  else ({xu}, {yu})\n\n'
+            '/-- `hex_to_rc` -/\n'
+            f'def hexToRC {KCLASSES} (sqrtN : Nat → K) (h : Int × Int × Int) (radius : K) (rotate : Bool) : K × K :=\n'
+            f'  let xy := hexToXY sqrtN h radius rotate\n  {rc_l}\n')
+    return lean, ['hex_ring loop, hex_neighbor/hex_direction/hex_add bodies, the hex_segments numbering loop matched structurally (alpha-renamed AST); inner radius, array-size argument, grid pitch, hex_to_xy and hex_to_rc translated']
+
+
+# ---------------------------------------------------------------------------------------------- helper.mesh
+def _mesh_generator(repo):
+    mod = ast.parse(open(os.path.join(repo, 'lentil/helper.py')).read())
+    fn = [n for n in mod.body if isinstance(n, ast.FunctionDef) and n.name == 'mesh']
+    if not fn: raise Refuse('mesh not found')
+    fn = fn[0]
+    body = [x for x in fn.body if not (isinstance(x, ast.Expr) and isinstance(x.value, ast.Constant))]
+    asg = {ast.unparse(x.targets[0]).strip('()'): x.value for x in body if isinstance(x, ast.Assign) and len(x.targets) == 1}
+    if ast.unparse(asg.get('nr', ast.Constant(0))) != 'shape[0]' or ast.unparse(asg.get('nc', ast.Constant(0))) != 'shape[1]': raise Refuse('mesh: nr/nc')
+    mg = asg.get('rr, cc')
+    if not (isinstance(mg, ast.Call) and ast.unparse(mg.func) == 'np.meshgrid' and len(mg.args) == 2
+            and [(k.arg, ast.unparse(k.value)) for k in mg.keywords] == [('indexing', "'ij'")]):
+        raise Refuse("mesh: np.meshgrid(..., indexing='ij') not found")
+    def intx(e, n):
+        if isinstance(e, ast.Name) and e.id == n: return 'n'
+        if isinstance(e, ast.Constant) and isinstance(e.value, int) and not isinstance(e.value, bool): return f'({e.value} : Int)'
+        if isinstance(e, ast.BinOp) and type(e.op) in (ast.Add, ast.Sub, ast.Mult):
+            return f"({intx(e.left, n)} {{ast.Add: '+', ast.Sub: '-', ast.Mult: '*'}}[type(e.op)] {intx(e.right, n)})".replace("{ast.Add: '+', ast.Sub: '-', ast.Mult: '*'}[type(e.op)]", {ast.Add: '+', ast.Sub: '-', ast.Mult: '*'}[type(e.op)])
+        raise Refuse('mesh: integer expression ' + ast.unparse(e))
+    def axis(e, n, sh):
+        # np.arange(n) - np.floor(<int expr>/2.0) - shift[k]  ->  per index i:  (i - floor(<int expr>/2)) - s   (floor of a half = Int floor division)
+        env = {f'np.arange({n})': '((i : Int) : K)', sh: 's'}
+        for x in ast.walk(e):
+            if isinstance(x, ast.Call) and ast.unparse(x.func) == 'np.floor' and len(x.args) == 1:
+                a = x.args[0]
+                if not (isinstance(a, ast.BinOp) and isinstance(a.op, ast.Div) and isinstance(a.right, ast.Constant) and a.right.value in (2, 2.0)):
+                    raise Refuse('mesh: np.floor argument is not <int>/2.0: ' + ast.unparse(a))
+                env[ast.unparse(x)] = f'(((({intx(a.left, n)}) / 2 : Int)) : K)'
+        return _real(e, env)
+    row, col = axis(mg.args[0], 'nr', 'shift[0]'), axis(mg.args[1], 'nc', 'shift[1]')
+    if row != col: raise Refuse('mesh: row and column coordinates are built differently')
+    if ast.unparse(asg.get('angle', ast.Constant(0))) != 'np.deg2rad(angle)': raise Refuse('mesh: angle conversion changed')
+    renv = {'rr': 'rr', 'cc': 'cc', 'np.cos(angle)': 'ca', 'np.sin(angle)': 'sa'}
+    r_l, c_l = _real(asg['r'], renv), _real(asg['c'], renv)
+    if not (isinstance(body[-1], ast.Return) and isinstance(body[-1].value, ast.Tuple) and [ast.unparse(t) for t in body[-1].value.elts] == ['r', 'c']):
+        raise Refuse('mesh: return changed')
+    lean = ('/-- `helper.mesh`: coordinate of index `i` on an axis of length `n` shifted by `s` (`np.arange(n) - np.floor(n/2.0) - shift`) -/\n'
+            f'def meshCoord {KCLASSES} (n i : Int) (s : K) : K := {row}\n\n'
+            '/-- `helper.mesh`: the rotated pair `(r, c)` from `(rr, cc)`; `ca`, `sa` = cos and sin of the angle -/\n'
+            f'def meshRot {KCLASSES} (rr cc ca sa : K) : K × K := ({r_l}, {c_l})\n')
+    return lean, ["mesh: per-axis coordinate and rotation pair translated; meshgrid(indexing='ij'), deg2rad and the return checked structurally"]
 
 MODULES = [
     {'name': 'Util', 'src': 'lentil/util.py', 'sigs': UTIL, 'props': ['C20', 'C09']},
     {'name': 'Helper20', 'src': 'lentil/helper.py', 'sigs': HELPER20, 'props': ['C20']},
     {'name': 'Hex', 'src': 'lentil/segmented.py', 'generator': _hex_generator, 'props': ['C20']},
+    {'name': 'Mesh', 'src': 'lentil/helper.py', 'generator': _mesh_generator, 'props': ['C20', 'C11']},
 ]
